@@ -41,6 +41,8 @@ type wireRes struct {
 	Depth     int
 	Conv      bool
 	ConvSteps int
+	Hung      bool
+	Retire    bool // set on the last result of a batch: the worker exits after sending it
 }
 
 func encPath(p []evt) []byte {
@@ -61,7 +63,7 @@ func decPath(b []byte) []evt {
 
 func toWire(r *result) wireRes {
 	w := wireRes{Key: r.key, Enabled: encPath(r.enabled), Costs: r.costs, Infra: r.infra, Label: r.label, Desc: r.desc,
-		Stats: r.stats, Depth: r.depth, Conv: r.conv, ConvSteps: r.convSteps}
+		Stats: r.stats, Depth: r.depth, Conv: r.conv, ConvSteps: r.convSteps, Hung: r.hung}
 	for _, v := range r.viols {
 		d, _ := json.Marshal(v.detail)
 		w.Viols = append(w.Viols, wireViol{v.key, d})
@@ -71,7 +73,7 @@ func toWire(r *result) wireRes {
 
 func fromWire(w *wireRes) result {
 	r := result{key: w.Key, enabled: decPath(w.Enabled), costs: w.Costs, infra: w.Infra, label: w.Label, desc: w.Desc,
-		stats: w.Stats, depth: w.Depth, conv: w.Conv, convSteps: w.ConvSteps}
+		stats: w.Stats, depth: w.Depth, conv: w.Conv, convSteps: w.ConvSteps, hung: w.Hung}
 	for _, v := range w.Viols {
 		d := map[string]any{}
 		json.Unmarshal(v.Detail, &d)
@@ -80,6 +82,10 @@ func fromWire(w *wireRes) result {
 	return r
 }
 
+// maxAbandoned is the number of abandoned bubbles (replays whose Synchronizer did not stop) after which a worker process
+// is replaced by a fresh one.
+const maxAbandoned = 64
+
 // workerMain serves replay requests until its input pipe closes.
 func workerMain(t *testing.T) {
 	in, out := os.NewFile(3, "jobs"), os.NewFile(4, "results")
@@ -87,6 +93,7 @@ func workerMain(t *testing.T) {
 	bw := bufio.NewWriterSize(out, 1<<16)
 	enc := gob.NewEncoder(bw)
 	var cfgs []*config
+	abandonedBubbles := 0
 	debug.SetGCPercent(100) // many workers share the machine; replays allocate little that survives
 	for {
 		var tier string
@@ -109,11 +116,27 @@ func workerMain(t *testing.T) {
 		for i, j := range jobs {
 			r := replay(t, cfgs[j.Cfg], decPath(j.Path), j.Conv)
 			res[i] = toWire(&r)
+			if r.hung {
+				abandonedBubbles++
+			}
+		}
+		retire := abandonedBubbles >= maxAbandoned
+		if retire && len(res) > 0 {
+			res[len(res)-1].Retire = true
 		}
 		if err := enc.Encode(res); err != nil {
 			return
 		}
 		bw.Flush()
+		if retire {
+			// every Synchronizer that did not stop left its (blocked) goroutines and its database behind in this
+			// process: the parent starts a fresh worker in its place
+			if bad := universeIntact(); bad != "" {
+				fmt.Fprintln(os.Stderr, "C06 worker: reference block mutated by the system under test:", bad)
+				os.Exit(3)
+			}
+			os.Exit(0)
+		}
 	}
 }
 
@@ -123,6 +146,7 @@ type worker struct {
 	bw  *bufio.Writer
 	dec *gob.Decoder
 	in  *os.File
+	out *os.File
 }
 
 type pool struct {
@@ -137,27 +161,35 @@ func newPool(tier string) (*pool, error) {
 		fmt.Sscan(s, &k)
 	}
 	for i := 0; i < k; i++ {
-		jr, jw, err := os.Pipe()
+		w, err := startWorker()
 		if err != nil {
 			return nil, err
 		}
-		rr, rw, err := os.Pipe()
-		if err != nil {
-			return nil, err
-		}
-		cmd := exec.Command(os.Args[0], "-test.run", "^TestCheck$", "-test.timeout", "0")
-		cmd.Env = append(os.Environ(), "VERIF_C06_WORKER=1", "GOMAXPROCS=1")
-		cmd.ExtraFiles = []*os.File{jr, rw}
-		cmd.Stderr = os.Stderr
-		if err := cmd.Start(); err != nil {
-			return nil, err
-		}
-		jr.Close()
-		rw.Close()
-		bw := bufio.NewWriterSize(jw, 1<<16)
-		p.ws = append(p.ws, &worker{cmd: cmd, enc: gob.NewEncoder(bw), bw: bw, dec: gob.NewDecoder(bufio.NewReaderSize(rr, 1<<16)), in: jw})
+		p.ws = append(p.ws, w)
 	}
 	return p, nil
+}
+
+func startWorker() (*worker, error) {
+	jr, jw, err := os.Pipe()
+	if err != nil {
+		return nil, err
+	}
+	rr, rw, err := os.Pipe()
+	if err != nil {
+		return nil, err
+	}
+	cmd := exec.Command(os.Args[0], "-test.run", "^TestCheck$", "-test.timeout", "0")
+	cmd.Env = append(os.Environ(), "VERIF_C06_WORKER=1", "GOMAXPROCS=1")
+	cmd.ExtraFiles = []*os.File{jr, rw}
+	cmd.Stderr = os.Stderr
+	if err := cmd.Start(); err != nil {
+		return nil, err
+	}
+	jr.Close()
+	rw.Close()
+	bw := bufio.NewWriterSize(jw, 1<<16)
+	return &worker{cmd: cmd, enc: gob.NewEncoder(bw), bw: bw, dec: gob.NewDecoder(bufio.NewReaderSize(rr, 1<<16)), in: jw, out: rr}, nil
 }
 
 func (p *pool) close() error {
@@ -222,8 +254,26 @@ func (p *pool) run(frontier []node, conv bool, stop func() bool) ([]result, erro
 					mu.Unlock()
 					return
 				}
+				retired := false
 				for i := range res {
 					results[lo+i] = fromWire(&res[i])
+					retired = retired || res[i].Retire
+				}
+				if retired {
+					// the worker retires after a replay whose Synchronizer did not stop (see workerMain)
+					w.in.Close()
+					werr := w.cmd.Wait()
+					w.out.Close()
+					nw, serr := startWorker()
+					if werr != nil || serr != nil {
+						mu.Lock()
+						if firstErr == nil {
+							firstErr = fmt.Errorf("replacing a retired worker process: wait=%v start=%v", werr, serr)
+						}
+						mu.Unlock()
+						return
+					}
+					*w = *nw
 				}
 			}
 		}(w)
